@@ -30,7 +30,9 @@ import (
 type storeTrace struct {
 	Family string         `json:"family"`
 	Seed   uint64         `json:"seed"`
-	Events []event        `json:"events"`
+	Events []event        `json:"events,omitempty"`
+	Cases  []term         `json:"cases,omitempty"` // family commit: CCommit blocked txns obs
+	Raw    []string       `json:"raw,omitempty"`
 	Stats  map[string]int `json:"stats"`
 	Error  string         `json:"error,omitempty"`
 }
@@ -221,11 +223,16 @@ func randCreateTask(r *rng) *t_aio.CreateTaskCommand {
 		State: st, Ttl: r.intn(4), ExpiresAt: int64(r.intn(12)), CreatedOn: int64(r.intn(12))}
 }
 
-func runStoreTrace(seed uint64, dir string, steps int) (tr *storeTrace) {
+// block: family "commit" - at some steps a second connection holds a read transaction on the database file while the
+// batch runs, so that the store's COMMIT cannot get its lock and fails after the (short) busy timeout
+func runStoreTrace(seed uint64, dir string, steps int, block bool) (tr *storeTrace) {
 	r := &rng{s: seed}
 	conflict := seed%4 == 3
 	tr = &storeTrace{Family: "store", Seed: seed, Stats: map[string]int{}}
-	path := filepath.Join(dir, fmt.Sprintf("s%d.db", seed))
+	if block {
+		tr.Family = "commit"
+	}
+	path := filepath.Join(dir, fmt.Sprintf("s%d_%v.db", seed, block))
 	_ = os.Remove(path)
 	defer func() {
 		if e := recover(); e != nil {
@@ -235,7 +242,11 @@ func runStoreTrace(seed uint64, dir string, steps int) (tr *storeTrace) {
 		_ = os.Remove(path + "-journal")
 	}()
 	m := metrics.New(prometheus.NewRegistry())
-	st, err := sqlite.New(nil, m, &sqlite.Config{BatchSize: 100, Path: path, TxTimeout: 10 * time.Second})
+	dsn := path
+	if block {
+		dsn = path + "?_busy_timeout=40"
+	}
+	st, err := sqlite.New(nil, m, &sqlite.Config{BatchSize: 100, Path: dsn, TxTimeout: 10 * time.Second})
 	if err != nil {
 		tr.Error = err.Error()
 		return tr
@@ -269,7 +280,19 @@ func runStoreTrace(seed uint64, dir string, steps int) (tr *storeTrace) {
 			sqes = append(sqes, &bus.SQE[t_aio.Submission, t_aio.Completion]{Id: "x", Submission: &t_aio.Submission{Kind: t_aio.Store, Tags: map[string]string{"id": "x"}, Store: &t_aio.StoreSubmission{Transaction: tx}}, Callback: func(*t_aio.Completion, error) {}})
 			txns = append(txns, TxnT(tx))
 		}
+		blocked := block && r.chance(0.3)
+		var release func()
+		if blocked {
+			release, err = ob.holdRead()
+			if err != nil {
+				tr.Error = err.Error()
+				return tr
+			}
+		}
 		cqes := st.Process(sqes)
+		if release != nil {
+			release()
+		}
 		var results term
 		all := []term{}
 		hintsAll := []term{}
@@ -311,12 +334,23 @@ func runStoreTrace(seed uint64, dir string, steps int) (tr *storeTrace) {
 		for i := range txns {
 			items = append(items, C("tx", txns[i], hintsAll[i]))
 		}
-		tr.Events = append(tr.Events, event{D: L(items...), O: []term{C("OExec", L(txns...), results, snap.term())}})
+		if block {
+			tr.Cases = append(tr.Cases, C("CCommit", blocked, L(items...), C("OExec", L(txns...), results, snap.term())))
+			tr.Raw = append(tr.Raw, fmt.Sprintf("batch %d of the trace (commit blocked by a reader: %v): the store reported %s", s, blocked, map[bool]string{true: "an error", false: "success"}[failed]))
+			if blocked {
+				tr.Stats["commit:blocked"]++
+			}
+		} else {
+			tr.Events = append(tr.Events, event{D: L(items...), O: []term{C("OExec", L(txns...), results, snap.term())}})
+		}
 	}
 	return tr
 }
 
-func cmdStore(args []string) {
+func cmdStore(args []string)  { cmdStoreX(args, false) }
+func cmdCommit(args []string) { cmdStoreX(args, true) }
+
+func cmdStoreX(args []string, block bool) {
 	fs := flag.NewFlagSet("store", flag.ExitOnError)
 	seed := fs.Uint64("seed", 1, "base seed")
 	n := fs.Int("n", 10, "number of traces")
@@ -350,7 +384,7 @@ func cmdStore(args []string) {
 			if *exact != 0 {
 				sd = *exact
 			}
-			traces[i] = runStoreTrace(sd, *dir, *steps)
+			traces[i] = runStoreTrace(sd, *dir, *steps, block)
 		}(i)
 	}
 	wg.Wait()
@@ -361,3 +395,5 @@ func cmdStore(args []string) {
 		}
 	}
 }
+
+func init() { extraCmds["commit"] = cmdCommit }
